@@ -8,6 +8,7 @@ import (
 	"errors"
 	"fmt"
 	"math/big"
+	"sync"
 
 	"github.com/wollac/iota-crypto-demo/pkg/slip10"
 	"github.com/wollac/iota-crypto-demo/pkg/slip10/eddsa"
@@ -31,7 +32,7 @@ func init() {
 			p := fw.Unpack(key)
 			return map[string]interface{}{"curve": curveName(p[0][0]), "seed": fw.Hex(p[1]), "path": decPath(p[2])}
 		},
-		Required: []string{"wrap-around shifts checked", "node ok", "master retry taken", "child retry taken", "permanent error returned", "undefined derivation refused", "public child ok"},
+		Required: []string{"shared parent object used concurrently", "appended into spare capacity of returned slices, key unchanged", "wrap-around shifts checked", "node ok", "master retry taken", "child retry taken", "permanent error returned", "undefined derivation refused", "public child ok"},
 	})
 }
 
@@ -185,6 +186,33 @@ func cmpNode(o *fw.Obs, what string, e *slip10.ExtendedKey, m *slip10m.Node) boo
 		o.Fail("fingerprint", "%s: fingerprint %x, SLIP-0010 prescribes %x", what, fp, m.ParentFP)
 		return false
 	}
+	// A caller may append to a returned slice (e.g. seed || public key). If the slice has spare capacity
+	// the append writes behind its length; that must not reach into other fields of the key.
+	scribbled := false
+	for _, b := range [][]byte{kb, pb, fp, e.ChainCode} {
+		if cap(b) > len(b) {
+			full := b[:cap(b)]
+			for i := len(b); i < len(full); i++ {
+				full[i] ^= 0xa5
+			}
+			scribbled = true
+		}
+	}
+	if scribbled {
+		var kb2, pb2, fp2 []byte
+		if !o.Try("Key.Bytes/Public/Fingerprint", func() {
+			kb2 = e.Key.Bytes()
+			pb2 = e.Key.Public().Bytes()
+			fp2 = e.Fingerprint()
+		}) {
+			return false
+		}
+		if !bytes.Equal(kb2, wantKey) || !bytes.Equal(pb2, m.Pub) || !bytes.Equal(fp2, m.ParentFP) || !bytes.Equal(e.ChainCode, m.Chain) {
+			o.Fail("aliasing", "%s: after appending to the slices returned by Bytes()/Fingerprint()/ChainCode (they have spare capacity) the key changed: key %x chain code %x public %x fingerprint %x; SLIP-0010 prescribes %x / %x / %x / %x", what, kb2, e.ChainCode, pb2, fp2, wantKey, m.Chain, m.Pub, m.ParentFP)
+			return false
+		}
+		o.Count("appended into spare capacity of returned slices, key unchanged")
+	}
 	o.Count("node ok")
 	return true
 }
@@ -275,6 +303,9 @@ func judge(class string, key []byte, o *fw.Obs) {
 			return
 		}
 		if step == len(path) {
+			if len(seed)%3 == 0 && !judgeSharedParent(o, cid, mp, curve, seed, path, mnode) {
+				return
+			}
 			break
 		}
 		idx := path[step]
@@ -329,6 +360,75 @@ func judge(class string, key []byte, o *fw.Obs) {
 		o.Count("earlier result re-inspected after sibling derivation")
 		node, mnode = child, mchild
 	}
+}
+
+// judgeSharedParent: one freshly derived parent object is used by several goroutines at once
+// (DeriveChild with different indices, Public, Fingerprint); every result must equal the model's.
+func judgeSharedParent(o *fw.Obs, cid byte, mp *slip10m.Params, curve slip10.Curve, seed []byte, path []uint32, mparent *slip10m.Node) bool {
+	var parent *slip10.ExtendedKey
+	var err error
+	if !o.Try("DeriveKeyFromPath", func() { parent, err = slip10.DeriveKeyFromPath(seed, curve, path) }) {
+		return false
+	}
+	if err != nil {
+		return true // judged by the stepwise part
+	}
+	const G = 4
+	type res struct {
+		idx   uint32
+		child *slip10.ExtendedKey
+		err   error
+		pub   []byte
+		fp    []byte
+		pan   interface{}
+	}
+	out := make([]res, G)
+	var wg sync.WaitGroup
+	start := make(chan struct{})
+	for g := 0; g < G; g++ {
+		out[g].idx = uint32(g)
+		if cid == 2 || g%2 == 1 {
+			out[g].idx |= 1 << 31
+		}
+		wg.Add(1)
+		go func(r *res) {
+			defer wg.Done()
+			defer func() { r.pan = recover() }()
+			<-start
+			r.child, r.err = parent.DeriveChild(r.idx)
+			r.pub = parent.Key.Public().Bytes()
+			r.fp = parent.Fingerprint()
+		}(&out[g])
+	}
+	close(start)
+	wg.Wait()
+	for _, r := range out {
+		what := fmt.Sprintf("%s path %v: child %d derived while %d goroutines use the same parent object", curveName(cid), path, r.idx, G)
+		if r.pan != nil {
+			o.Fail("panic", "%s: panic: %v", what, r.pan)
+			return false
+		}
+		mchild, merr := mp.Child(mparent, r.idx)
+		if merr != nil {
+			if !cmpErr(o, what, r.child, r.err, merr, false, r.idx) {
+				return false
+			}
+			continue
+		}
+		if r.err != nil {
+			o.Fail("error", "%s: unexpected error %v", what, r.err)
+			return false
+		}
+		if !bytes.Equal(r.pub, mparent.Pub) || !bytes.Equal(r.fp, mparent.ParentFP) {
+			o.Fail("pubkey", "%s: parent public key %x / fingerprint %x, SLIP-0010 prescribes %x / %x", what, r.pub, r.fp, mparent.Pub, mparent.ParentFP)
+			return false
+		}
+		if !cmpNode(o, what, r.child, mchild) {
+			return false
+		}
+	}
+	o.Count("shared parent object used concurrently")
+	return true
 }
 
 // judgeWrap calls Shift on the node's private key with I_L = n - k + d (sum = n + d) and on its public key.
@@ -442,7 +542,7 @@ func judgePublic(o *fw.Obs, cid byte, mp *slip10m.Params, node *slip10.ExtendedK
 var idxPool = []uint32{0, 1, 2, 1<<31 - 1, 1 << 31, 1<<31 + 1, 1<<32 - 1, 44 + 1<<31, 1000000000}
 
 func gen(g *fw.Gen) {
-	for n := g.ShareOf(3200, 240000); n > 0; n-- {
+	for n := g.ShareOf(3200, 100000); n > 0; n-- {
 		cid := byte(g.Rng.Intn(nCurves))
 		var seed []byte
 		switch g.Rng.Intn(6) {
